@@ -125,6 +125,9 @@ func (in *interp) formatArg(fr *frame, vb fmtVerb, a iface) []value {
 			b := in.truth(v)
 			return strElems(fmt.Sprintf(vb.spec, b))
 		}
+		if digits, ok := in.fixedHex(vb, v); ok {
+			return digits
+		}
 		return []value{&Atom{T: v.T, K: v.K, Verb: vb.spec}}
 	case *SymStr:
 		if vb.spec == "%s" || vb.spec == "%v" {
@@ -224,4 +227,39 @@ func (in *interp) toNativeAny(t types.Type, v value, depth int) (any, bool) {
 		return fmt.Sprintf("map[%d entries]", x.Len()), true
 	}
 	return nil, false
+}
+
+// fixedHex renders %0Nx / %0NX of a symbolic integer as N symbolic hex-digit bytes when the
+// value is known (on this path) to fit in N digits.
+func (in *interp) fixedHex(vb fmtVerb, v *Sym) ([]value, bool) {
+	if (vb.verb != 'x' && vb.verb != 'X') || len(vb.spec) != 4 || vb.spec[1] != '0' || vb.spec[2] < '1' || vb.spec[2] > '8' || !kindInt(v.K) {
+		return nil, false
+	}
+	n := int(vb.spec[2] - '0')
+	tp := in.tp
+	w := kindWidth(v.K)
+	if 4*n < w {
+		fits := tp.bvCmp(OpBVUlt, v.T, tp.BV(uint64(1)<<uint(4*n), w))
+		if !in.decide(fits, "value fits in the fixed hex width") {
+			return nil, false
+		}
+	}
+	out := make([]value, n)
+	for i := 0; i < n; i++ {
+		sh := 4 * (n - 1 - i)
+		var nib *Term
+		if sh+3 < w {
+			nib = tp.Extract(sh+3, sh, v.T)
+		} else {
+			nib = tp.BV(0, 4)
+		}
+		n8 := tp.ZeroExt(4, nib)
+		base := uint64('a' - 10)
+		if vb.verb == 'X' {
+			base = 'A' - 10
+		}
+		isDigit := tp.bvCmp(OpBVUlt, n8, tp.BV(10, 8))
+		out[i] = in.mk(types.Uint8, tp.Ite(isDigit, tp.bvBin(OpBVAdd, n8, tp.BV('0', 8)), tp.bvBin(OpBVAdd, n8, tp.BV(base, 8))))
+	}
+	return out, true
 }
